@@ -620,6 +620,11 @@ func (fx *FnExec) copyBuiltin(fr *frame, st *State, cc *ssa.CallCommon, args []V
 		fx.assumeGlobal(c.Forall([]*Term{k}, c.Eq(c.Select(narr, k), c.Ite(in, c.Select(src, c.BVBin("bvadd", soff, rel)), c.Select(darr, k)))))
 	}
 	fx.setElemArray(st, et, dst.Ref, narr)
+	fx.arrayUpdated(darr, narr, dst.Off, n)
+	if src.Sort == byteArr {
+		// the copied window denotes the same abstract byte string as its source
+		fx.assumeGlobal(c.Eq(fx.rngTerm(narr, dst.Off, n), fx.rngTerm(src, soff, n)))
+	}
 	return n
 }
 
